@@ -12,6 +12,15 @@ Per result set:
            reported / next taxon, closest genomes (property); agrees with the CSV cells
   archive  writer output == model text; ResultsArchiveReader(...) == original object, distances
            bit for bit, warnings, error, params (property); model reader agrees
+Kind multiset: the archive clause "read back against the same database" over databases that hold SEVERAL genome
+sets (versions of one key, or different keys) sharing Genome rows, each with its own taxonomy and genome
+annotations.  Result sets (real queries, the same ones against every set or independent ones, and hand-built
+objects) are produced against each set; each goes through the per-result checks above (the model reader is given
+all genome set rows of the database and the taxon / genome rows of the results' own set), and then the archives
+are read back by ResultsArchiveReader instances that are REUSED according to a generated schedule (one reader
+over all archives in either order / shuffled / with repeats / alternating between the sets, one reader per set,
+a fresh reader per archive, two interleaved readers): every loaded object must reconstruct its own original,
+whatever the reader instance has read before.
 The CPython csv / json behaviour the theorems rest on is sampled separately (kinds csvtext, rows,
 jsonstr): exhaustive small alphabets + random.
 
@@ -34,16 +43,25 @@ RULE = ('results: a result set (real query via API or CLI on a generated databas
         'exported as csv + json + archive; non-trivial when a CSV-visible string contains one of '
         ', " LF CR or a non-ASCII character, or an item has no prediction / an unreportable predicted '
         'taxon / a failed strict result / warnings / no source file.  '
+        'multiset: a generated database with 2-3 genome sets over shared genomes, 2-6 result sets against them, archives read back '
+        'by reader instances reused according to a schedule [[reader, result set], ...]; every loaded object is compared with its '
+        'original (==, distances bit for bit, genome annotation of the right set); non-trivial when some reader instance reads more '
+        'than one archive (counter multiset:reader-crosses-genome-sets: a reader reads archives of different genome sets).  '
         'rows: rows of strings through the exporter\'s csv writer, non-trivial when a field needs '
         'quoting.  csvtext / jsonstr: CPython reader / json string behaviour vs the model')
 TRUSTED = ['CPython csv / json modules (modelled in Model/C11Csv.v, C11Json.v; sampled by kinds csvtext, rows, jsonstr)',
            'float repr / str(np.float32) / int repr: numbers enter the model as the tokens Python produced',
-           'cattrs structuring, SQLAlchemy queries (.one() by key within the genome set), SQLite storage of text',
+           'cattrs structuring, SQLAlchemy queries (.one() by key within the genome set; sampled over databases with several genome sets '
+           'sharing Genome rows by kind multiset), the session identity map (== of results compares ORM objects by identity), SQLite storage of text',
+           'stream multiset: reader-instance state is explored by generated schedules (8 shapes), not proved absent: the model reader is a pure '
+           'function of (database rows, archive text)',
            'json.loads on whole documents (only the string scanner and the document writer are modelled)']
 ASSUMPTIONS = ['CSV read back with csv.reader on a text stream opened with newline="" (as the csv documentation requires)',
                'fields shorter than csv.field_size_limit() (131072 characters)',
                'strings are Unicode text: no (high surrogate, low surrogate) code point adjacency (C11_json_surrogate_pair_refuted)',
-               'the database holds one genome set (ReferenceDatabase / only_genomeset); taxon and genome keys are unique (schema)',
+               'kinds query / built / cli: the database holds one genome set (ReferenceDatabase.load_from_dir / only_genomeset); kind multiset: '
+               'several genome sets with distinct (key, version), every set queried through its own ReferenceDatabase on one shared session; '
+               'taxon and genome keys are unique (schema)',
                'output files are written on a platform whose text mode does not translate LF']
 BATCH = 400
 
@@ -92,7 +110,42 @@ def _mutate(rng, seq, rate):
 	return bytes(b)
 
 
-class GenDB:
+class _Tables:
+	"""harness-side views of one genome set: self.gset, self.taxa, self.genomes (own tables)"""
+
+	def lineage(self, tkey):
+		out = []
+		while tkey is not None:
+			out.append(tkey)
+			tkey = self.taxa[tkey]['parent']
+		return out
+
+	def enc_taxon(self, tkey):
+		t = self.taxa[tkey]
+		return [S(str(t['id'])), S(t['key']), S(t['name']), opt(t['ncbi_id'], lambda v: S(str(v))),
+		        opt(t['rank'], S), opt(t['thr'], lambda v: S(repr(v)))]
+
+	def enc_genome(self, gkey):
+		g = self.genomes[gkey]
+		return [S(g['key']), S(g['description']), opt(g['organism'], S), opt(g['ncbi_db'], S),
+		        opt(g['ncbi_id'], lambda v: S(str(v))), opt(g['genbank_acc'], S), opt(g['refseq_acc'], S),
+		        S(str(g['id'])), [self.enc_taxon(k) for k in self.lineage(g['taxon'])]]
+
+	def enc_gset(self):
+		g = self.gset
+		return [S(str(g['id'])), S(g['key']), opt(g['version'], S), S(g['name']), opt(g['description'], S)]
+
+	def all_gsets(self):
+		"""every genome set row of the database this set lives in"""
+		return [self]
+
+	def enc_refdb(self):
+		# the model reader selects the genome set by (key, version) among all sets of the database; taxa and
+		# genomes are the rows of this set (the implementation is to look them up within the set)
+		return [[v.enc_gset() for v in self.all_gsets()], [self.enc_taxon(k) for k in self.taxa], [self.enc_genome(k) for k in self.genomes]]
+
+
+class GenDB(_Tables):
 	"""A generated reference database together with the harness's own tables."""
 
 	def __init__(self, seed, lone_cr):
@@ -191,32 +244,6 @@ class GenDB:
 		dump_signatures(os.path.join(self.dir, 'db.gs'), asig, 'hdf5')
 		self.db = ReferenceDatabase.load_from_dir(self.dir)
 
-	# -- harness-side views -------------------------------------------------------------------
-	def lineage(self, tkey):
-		out = []
-		while tkey is not None:
-			out.append(tkey)
-			tkey = self.taxa[tkey]['parent']
-		return out
-
-	def enc_taxon(self, tkey):
-		t = self.taxa[tkey]
-		return [S(str(t['id'])), S(t['key']), S(t['name']), opt(t['ncbi_id'], lambda v: S(str(v))),
-		        opt(t['rank'], S), opt(t['thr'], lambda v: S(repr(v)))]
-
-	def enc_genome(self, gkey):
-		g = self.genomes[gkey]
-		return [S(g['key']), S(g['description']), opt(g['organism'], S), opt(g['ncbi_db'], S),
-		        opt(g['ncbi_id'], lambda v: S(str(v))), opt(g['genbank_acc'], S), opt(g['refseq_acc'], S),
-		        S(str(g['id'])), [self.enc_taxon(k) for k in self.lineage(g['taxon'])]]
-
-	def enc_gset(self):
-		g = self.gset
-		return [S(str(g['id'])), S(g['key']), opt(g['version'], S), S(g['name']), opt(g['description'], S)]
-
-	def enc_refdb(self):
-		return [[self.enc_gset()], [self.enc_taxon(k) for k in self.taxa], [self.enc_genome(k) for k in self.genomes]]
-
 
 def get_db(seed, lone_cr=None):
 	lone_cr = STATE['lone_cr_ok'] if lone_cr is None else lone_cr
@@ -229,6 +256,188 @@ def get_db(seed, lone_cr=None):
 			del STATE['dbs'][k0]
 		STATE['dbs'][key] = GenDB(seed, lone_cr)
 	return STATE['dbs'][key]
+
+
+class SetView(_Tables):
+	"""one genome set of a MultiDB: the same interface as GenDB (own tables + a ReferenceDatabase)"""
+
+	def __init__(self, parent):
+		self.parent = parent
+		self.dir = parent.dir
+		self.kspec = parent.kspec
+		self.seqs = parent.seqs
+		self.taxa = {}
+		self.genomes = {}
+
+	def all_gsets(self):
+		return self.parent.sets
+
+
+class MultiDB:
+	"""A generated database file holding SEVERAL genome sets (versions of one key and/or different keys)
+	over shared Genome rows.  Every set has its own taxonomy (own Taxon rows, thresholds, report flags),
+	annotates all or most of the genomes (own AnnotatedGenome rows: taxon + organism) and is queried through
+	its own ReferenceDatabase; all of them share one SQLAlchemy session and one signature file."""
+
+	def __init__(self, seed, lone_cr):
+		import numpy as np
+		from sqlalchemy import create_engine
+		from sqlalchemy.orm import sessionmaker
+		from gambit.db import models as M
+		from gambit.db import ReferenceDatabase
+		from gambit.sigs import SignaturesMeta, SignatureList, AnnotatedSignatures, dump_signatures, load_signatures
+		from gambit.sigs.calc import calc_signature
+		from gambit.kmers import KmerSpec
+		rng = random.Random(f'C11-mdb-{seed}')
+		self.seed = seed
+		self.dir = os.path.join(STATE['scratch'], f'mdb{seed}-{int(lone_cr)}')
+		os.makedirs(self.dir)
+		pool = NASTY + (LONE_CR if lone_cr else [])
+
+		def name():
+			r = rng.random()
+			if r < 0.6:
+				return rng.choice(pool)
+			if r < 0.8:
+				return rng.choice(pool) + ' ' + rng.choice(pool)
+			return ''.join(rng.choice('ab ,"\né漢\U0001f600' + ('\r' if lone_cr else '')) for _ in range(rng.randint(1, 6)))
+
+		self.kspec = KmerSpec(6, 'AT')
+		# -- shared Genome rows, in clusters of related sequences
+		shared = {}
+		self.seqs = {}
+		clusters = []
+		for c in range(rng.randint(2, 4)):
+			base = bytes(rng.choice(b'ACGT') for _ in range(3000))
+			cl = []
+			for _ in range(rng.randint(1, 3)):
+				gk = f'g{len(shared)}/{rng.choice(["x", "é", "k,"])}'
+				shared[gk] = dict(key=gk, description=name(), ncbi_db=rng.choice([None, 'assembly']), ncbi_id=rng.choice([None, rng.randrange(10 ** 7)]),
+				                  genbank_acc=rng.choice([None, f'GCA_{len(shared)}.1']),
+				                  refseq_acc=rng.choice([None, f'GCF_{len(shared)} {name()}']), id=len(shared) + 1)
+				self.seqs[gk] = _mutate(rng, base, rng.choice([0.0, 0.01, 0.03]))
+				cl.append(gk)
+			clusters.append(cl)
+		allkeys = list(shared)
+		if len(allkeys) < 3:
+			gk = f'g{len(shared)}/x'
+			shared[gk] = dict(key=gk, description=name(), ncbi_db=None, ncbi_id=None, genbank_acc=None, refseq_acc=None, id=len(shared) + 1)
+			self.seqs[gk] = _mutate(rng, self.seqs[allkeys[0]], 0.02)
+			clusters[0].append(gk)
+			allkeys.append(gk)
+
+		# -- the genome sets: (key, version) pairs are distinct (schema), nothing else is
+		nsets = rng.choice([2, 2, 2, 3])
+		style = rng.choice(['versions', 'versions', 'keys', 'mixed'])
+		k0 = name() or 'k'
+		idents = []
+		while len(idents) < nsets:
+			if style == 'versions':
+				ident = (k0, rng.choice(['1.0', '2.0', '1.0.1', None, name()]))
+			elif style == 'keys':
+				ident = ((name() or 'k') + str(len(idents)), idents[0][1] if idents else rng.choice(['1.0', None]))
+			else:
+				ident = (rng.choice([k0, k0 + "'", name() or 'k']), rng.choice(['1.0', '2.0', None]))
+			if ident not in idents:
+				idents.append(ident)
+		self.sets = []
+		ntax = 0
+		for si, (gk_, gv_) in enumerate(idents):
+			v = SetView(self)
+			v.gset = dict(id=si + 1, key=gk_, version=gv_, name=name(), description=rng.choice([None, name()]))
+			n = len(allkeys)
+			if rng.random() < 0.6:
+				members = set(allkeys)
+			else:       # more than half of the genomes: any two sets share Genome rows
+				members = set(allkeys) - set(rng.sample(allkeys, rng.randint(1, max(1, (n - 1) // 2))))
+			roots = []
+			for r in range(rng.choice([1, 1, 2])):
+				rk = f's{si}t{ntax}'
+				ntax += 1
+				v.taxa[rk] = dict(key=rk, name=name(), rank=rng.choice(['genus', None, name()]),
+				                  thr=rng.choice([0.8, 0.995, 0.9, None]), report=rng.random() < 0.8,
+				                  ncbi_id=rng.choice([None, 0, rng.randrange(1, 10 ** 6)]), parent=None, id=ntax)
+				roots.append(rk)
+			leaves = None
+			for cl in clusters:
+				mem = [k for k in cl if k in members]
+				if not mem:
+					continue
+				if leaves is None or rng.random() < 0.75:       # else: this version lumps the cluster into the previous species
+					sk = f's{si}t{ntax}'
+					ntax += 1
+					v.taxa[sk] = dict(key=sk, name=name(), rank=rng.choice(['species', 'species', None]),
+					                  thr=rng.choice([0.3, 0.45, round(rng.uniform(0.05, 0.7), 4), None]),
+					                  report=rng.random() < 0.7, ncbi_id=rng.choice([None, rng.randrange(1, 10 ** 6)]),
+					                  parent=rng.choice(roots), id=ntax)
+					leaves = [sk]
+					if rng.random() < 0.4:
+						uk = f's{si}t{ntax}'
+						ntax += 1
+						v.taxa[uk] = dict(key=uk, name=name(), rank=rng.choice(['subspecies', name()]), thr=rng.choice([None, 0.1, 0.2]),
+						                  report=rng.random() < 0.5, ncbi_id=None, parent=sk, id=ntax)
+						leaves.append(uk)
+				for k in mem:
+					v.genomes[k] = dict(shared[k], organism=rng.choice([None, name(), f'{name()} (set {si})']), taxon=rng.choice(leaves))
+			self.sets.append(v)
+
+		eng = create_engine('sqlite:///' + os.path.join(self.dir, 'db.gdb'))
+		M.Base.metadata.create_all(eng)
+		ses = sessionmaker(eng)()
+		gobjs = {}
+		for k, g in shared.items():
+			gobjs[k] = M.Genome(key=k, description=g['description'], ncbi_db=g['ncbi_db'], ncbi_id=g['ncbi_id'],
+			                    genbank_acc=g['genbank_acc'], refseq_acc=g['refseq_acc'])
+			ses.add(gobjs[k])
+			ses.flush()
+			assert gobjs[k].id == g['id']
+		gsobjs = []
+		for v in self.sets:
+			gs = M.ReferenceGenomeSet(key=v.gset['key'], version=v.gset['version'], name=v.gset['name'], description=v.gset['description'])
+			ses.add(gs)
+			ses.flush()
+			assert gs.id == v.gset['id']
+			gsobjs.append(gs)
+		# taxon ids follow the global creation order above (sets one after the other)
+		tobjs = {}
+		for v, gs in zip(self.sets, gsobjs):
+			for k, t in v.taxa.items():
+				tobjs[k] = M.Taxon(key=k, name=t['name'], rank=t['rank'], distance_threshold=t['thr'], report=t['report'],
+				                   ncbi_id=t['ncbi_id'], genome_set=gs, parent=tobjs.get(t['parent']))
+				ses.add(tobjs[k])
+				ses.flush()
+				assert tobjs[k].id == t['id']
+		# annotations: interleave the sets so that AnnotatedGenome rows of different sets are mixed in the table
+		todo = [(v, gs, k) for v, gs in zip(self.sets, gsobjs) for k in v.genomes]
+		rng.shuffle(todo)
+		for v, gs, k in todo:
+			ses.add(M.AnnotatedGenome(genome=gobjs[k], genome_set=gs, taxon=tobjs[v.genomes[k]['taxon']], organism=v.genomes[k]['organism']))
+		ses.commit()
+		self.session = ses
+		self.sigmeta = dict(id=name(), name=name(), version='1', id_attr='key', description=rng.choice([None, name()]),
+		                    extra=rng.choice([{}, {'n': 1, 'x': [name(), 0.5, None, True]}]))
+		sigs = [calc_signature(self.kspec, self.seqs[k]) for k in allkeys]
+		asig = AnnotatedSignatures(SignatureList(sigs, self.kspec, dtype=np.uint16), allkeys, SignaturesMeta(**self.sigmeta))
+		dump_signatures(os.path.join(self.dir, 'db.gs'), asig, 'hdf5')
+		self.sigs = load_signatures(os.path.join(self.dir, 'db.gs'))
+		for v, gs in zip(self.sets, gsobjs):
+			v.sigmeta = self.sigmeta
+			v.db = ReferenceDatabase(gs, self.sigs)
+			assert v.db.session is ses and sorted(a.genome.key for a in v.db.genomes) == sorted(v.genomes)
+
+
+def get_mdb(seed, lone_cr=None):
+	lone_cr = STATE['lone_cr_ok'] if lone_cr is None else lone_cr
+	key = (seed, lone_cr)
+	cache = STATE.setdefault('mdbs', {})
+	if key not in cache:
+		if len(cache) > 16:
+			k0, old = next(iter(cache.items()))
+			old.session.close()
+			shutil.rmtree(old.dir, ignore_errors=True)
+			del cache[k0]
+		cache[key] = MultiDB(seed, lone_cr)
+	return cache[key]
 
 
 # ---- abstraction of a results object (keys + numbers only come from the object) --------------
@@ -318,13 +527,55 @@ def _interesting(g, a):
 	return False
 
 
-def check_results(ctx, kind, case, g, results, texts=None, cli_read=None):
+def _matches(it):
+	return [it['closest']] + [it['primary']] * (it['primary'] is not None) + it['closest_genomes']
+
+
+def compare_loaded(g, a, results, r2, a2, own):
+	"""property predicate of the archive clause: `r2` (read back against the database of `g`, abstraction `a2`)
+	reconstructs `results` (abstraction `a`).  `own`: `results` is the very object that was exported (else it
+	is an equivalent one computed by the harness, e.g. for CLI output).  Returns the first problem or None."""
+	bad = None
+	for i1, i2 in zip(a['items'], a2['items']):
+		ms1, ms2 = _matches(i1), _matches(i2)
+		if [(m[0], _f32bits(m[1]), float(m[1]), m[2]) for m in ms1] != [(m[0], _f32bits(m[1]), float(m[1]), m[2]) for m in ms2]:
+			bad = bad or f'archive read back: matches / distances of query {i1["label"]!r} differ: {ms1} -> {ms2}'
+		for f in ('label', 'file', 'success', 'pred', 'next', 'warnings', 'error', 'report'):
+			if i1[f] != i2[f]:
+				bad = bad or f'archive read back: {f} of query {i1["label"]!r}: {i1[f]!r} -> {i2[f]!r}'
+	if len(a['items']) != len(a2['items']) or a['params'] != a2['params'] or a['extra'] != a2['extra'] or a['version'] != a2['version'] \
+			or a['timestamp'] != a2['timestamp'] or r2.genomeset.key != g.gset['key'] or r2.signaturesmeta != results.signaturesmeta:
+		bad = bad or 'archive read back: item count / params / extra / version / timestamp / genome set / signatures metadata differ'
+	# the loaded objects are those of the results' own genome set: "closest-genome data" is the annotation of the
+	# genome within that set (harness tables), not that of another set sharing the Genome row
+	if not bad:
+		gs2 = r2.genomeset
+		if (gs2.id, gs2.key, gs2.version, gs2.name) != (g.gset['id'], g.gset['key'], g.gset['version'], g.gset['name']):
+			bad = (f'archive read back: genome set is id {gs2.id} key {gs2.key!r} version {gs2.version!r}, the results were for '
+			       f'id {g.gset["id"]} key {g.gset["key"]!r} version {g.gset["version"]!r}')
+		for it in r2.items:
+			cr = it.classifier_result
+			for m in [cr.closest_match] + [cr.primary_match] * (cr.primary_match is not None) + list(it.closest_genomes):
+				ag = m.genome
+				want = g.genomes.get(ag.genome.key)
+				got = (ag.genome_set_id, ag.organism, ag.taxon.key)
+				if not bad and want is not None and got != (g.gset['id'], want['organism'], want['taxon']):
+					bad = (f'archive read back: query {it.input.label!r}: genome {ag.genome.key!r} was loaded with the annotation (genome set id, '
+					       f'organism, taxon) = {got}; in the genome set of the results it is {(g.gset["id"], want["organism"], want["taxon"])}')
+	if own and not bad and not (r2 == results):
+		bad = 'archive read back against the same database is not equal to the original results object'
+	return bad
+
+
+def check_results(ctx, kind, case, g, results, texts=None, cli_read=None, register=True, where=''):
 	"""compare the three exports of `results` with model and property.  `texts` (CLI): already
-	produced outputs {'csv':..., 'json':..., 'archive':...} (any subset)."""
+	produced outputs {'csv':..., 'json':..., 'archive':...} (any subset).  `where`: prefix of violation
+	texts (which result set of a multi-result case)."""
 	import numpy as np
 	from gambit.results import CSVResultsExporter, JSONResultsExporter, ResultsArchiveWriter, ResultsArchiveReader
 	a = abs_results(results)
-	ctx.case(case, nontrivial=_interesting(g, a))
+	if register:
+		ctx.case(case, nontrivial=_interesting(g, a))
 	er = enc_results(g, a)
 	xitems = [[enc_item(g, it), S(_dtok_csv(it['closest'][1]))] for it in a['items']]
 	exp_rows = [HEADER] + [expected_cells(g, it) for it in a['items']]
@@ -335,7 +586,7 @@ def check_results(ctx, kind, case, g, results, texts=None, cli_read=None):
 			try:
 				texts[fmt] = _export(ex, results)
 			except Exception as e:
-				ctx.violation(kind, case, f'{fmt} export of the result set raised {type(e).__name__}: {e}')
+				ctx.violation(kind, case, where + f'{fmt} export of the result set raised {type(e).__name__}: {e}')
 	mod = None
 	if ctx.model_ok:
 		ans = ctx.model([(1107, xitems), (1108, er), (1109, er), (1110, [g.enc_refdb(), er]), (1111, xitems)])
@@ -351,7 +602,7 @@ def check_results(ctx, kind, case, g, results, texts=None, cli_read=None):
 		except csv.Error as e:
 			back = f'csv.Error: {e}'
 		if back != exp_rows:
-			ctx.violation(kind, case, f'CSV export does not parse back to header + one row per query with the documented cells: '
+			ctx.violation(kind, case, where + f'CSV export does not parse back to header + one row per query with the documented cells: '
 			              f'got {back!r}, expected {exp_rows!r} (output {t!r})', impl=t, spec=exp_rows, model=mod and mod['csv'])
 		elif mod and t != mod['csv']:
 			ctx.broke('correspondence csv (byte-for-byte)', f'case {case}: impl {t!r} model {mod["csv"]!r}')
@@ -368,7 +619,7 @@ def check_results(ctx, kind, case, g, results, texts=None, cli_read=None):
 		if d is not None:
 			bad = _check_json(g, a, d, exp_rows)
 		if bad:
-			ctx.violation(kind, case, f'JSON export: {bad}', impl=t[:2000], model=mod and mod['json'][:2000])
+			ctx.violation(kind, case, where + f'JSON export: {bad}', impl=t[:2000], model=mod and mod['json'][:2000])
 		elif mod and t != mod['json']:
 			i = next((i for i, (x, y) in enumerate(zip(t, mod['json'])) if x != y), min(len(t), len(mod['json'])))
 			ctx.broke('correspondence json (byte-for-byte)', f'case {case}: first difference at {i}: impl ...{t[max(0, i - 60):i + 60]!r} model ...{mod["json"][max(0, i - 60):i + 60]!r}')
@@ -386,25 +637,13 @@ def check_results(ctx, kind, case, g, results, texts=None, cli_read=None):
 			if cli_read is not None:
 				cli_read(r2)
 			a2 = abs_results(r2)
-			if own and not (r2 == results):
-				bad = 'archive read back against the same database is not equal to the original results object'
-			for i1, i2 in zip(a['items'], a2['items']):
-				ms1 = [i1['closest']] + [i1['primary']] * (i1['primary'] is not None) + i1['closest_genomes']
-				ms2 = [i2['closest']] + [i2['primary']] * (i2['primary'] is not None) + i2['closest_genomes']
-				if [(m[0], _f32bits(m[1]), float(m[1]), m[2]) for m in ms1] != [(m[0], _f32bits(m[1]), float(m[1]), m[2]) for m in ms2]:
-					bad = bad or f'archive read back: matches / distances of query {i1["label"]!r} differ: {ms1} -> {ms2}'
-				for f in ('label', 'file', 'success', 'pred', 'next', 'warnings', 'error', 'report'):
-					if i1[f] != i2[f]:
-						bad = bad or f'archive read back: {f} of query {i1["label"]!r}: {i1[f]!r} -> {i2[f]!r}'
-			if len(a['items']) != len(a2['items']) or a['params'] != a2['params'] or a['extra'] != a2['extra'] or a['version'] != a2['version'] \
-					or a['timestamp'] != a2['timestamp'] or r2.genomeset.key != g.gset['key'] or r2.signaturesmeta != results.signaturesmeta:
-				bad = bad or 'archive read back: item count / params / extra / version / timestamp / genome set / signatures metadata differ'
+			bad = compare_loaded(g, a, results, r2, a2, own)
 			if not bad and mod:
 				er2 = enc_results(g, a2)
 				if mod['read'] != [0, er2]:
 					ctx.broke('correspondence archive (model reader vs ResultsArchiveReader)', f'case {case}: model {str(mod["read"])[:300]}')
 		if bad:
-			ctx.violation(kind, case, bad, impl=t[:2000], model=mod and mod['archive'][:2000])
+			ctx.violation(kind, case, where + bad, impl=t[:2000], model=mod and mod['archive'][:2000])
 		elif mod and t != mod['archive']:
 			i = next((i for i, (x, y) in enumerate(zip(t, mod['archive'])) if x != y), min(len(t), len(mod['archive'])))
 			ctx.broke('correspondence archive (byte-for-byte)', f'case {case}: first difference at {i}: impl ...{t[max(0, i - 60):i + 60]!r} model ...{mod["archive"][max(0, i - 60):i + 60]!r}')
@@ -486,50 +725,119 @@ def _inputs(case):
 	return out
 
 
-def k_query(ctx, cases):
-	"""real API query on a generated database"""
+def run_query(g, case):
+	"""real API query described by `case` (strict, report_closest, chunksize, queries, labels, files, extra)
+	against the genome set / database `g`"""
 	from gambit.query import query, QueryParams
-	for case in cases:
-		g = get_db(case['db_seed'], case.get('lone_cr'))
-		gkeys = list(g.genomes)
-		spec = [[None if q[0] is None else gkeys[q[0] % len(gkeys)], q[1], q[2]] for q in case['queries']]
-		params = QueryParams(classify_strict=case['strict'], report_closest=case['report_closest'], chunksize=case['chunksize'])
-		res = query(g.db, _query_sigs(g, spec), params, inputs=_inputs(case))
-		res.extra = case.get('extra', {})
-		check_results(ctx, 'query', case, g, res)
+	gkeys = list(g.genomes)
+	spec = [[None if q[0] is None else gkeys[q[0] % len(gkeys)], q[1], q[2]] for q in case['queries']]
+	params = QueryParams(classify_strict=case['strict'], report_closest=case['report_closest'], chunksize=case['chunksize'])
+	res = query(g.db, _query_sigs(g, spec), params, inputs=_inputs(case))
+	res.extra = case.get('extra', {})
+	return res
 
 
-def k_built(ctx, cases):
-	"""hand-built results object (as tests/test_results.py does), arbitrary combinations"""
+def build_results(g, case):
+	"""hand-built results object described by `case` (items, labels, files, params, extra) over the taxa and
+	annotated genomes of the genome set `g`"""
 	import numpy as np
 	from gambit.query import QueryResults, QueryResultItem, QueryParams
 	from gambit.classify import ClassifierResult, GenomeMatch
 	from gambit.sigs import SignaturesMeta
+	from gambit.db import Taxon, AnnotatedGenome, Genome
+	ses = g.db.session
+	tkeys, gkeys = list(g.taxa), list(g.genomes)
+
+	def T(i):
+		return None if i is None else ses.query(Taxon).filter_by(key=tkeys[i % len(tkeys)]).one()
+
+	def M_(m):
+		if m is None:
+			return None
+		ge = ses.query(AnnotatedGenome).join(Genome).filter(AnnotatedGenome.genome_set_id == g.gset['id'],
+		                                                    Genome.key == gkeys[m[0] % len(gkeys)]).one()
+		d = np.uint32(m[1]).view(np.float32) if m[3] else float(np.uint32(m[1]).view(np.float32))
+		return GenomeMatch(genome=ge, distance=d, matched_taxon=T(m[2]))
+	items = []
+	for it, inp in zip(case['items'], _inputs(case)):
+		cr = ClassifierResult(success=it['success'], predicted_taxon=T(it['pred']), primary_match=M_(it['primary']),
+		                      closest_match=M_(it['closest']), next_taxon=T(it['next']), warnings=list(it['warnings']), error=it['error'])
+		items.append(QueryResultItem(input=inp, classifier_result=cr, report_taxon=T(it['report']),
+		                             closest_genomes=[M_(m) for m in it['closest_genomes']]))
+	p = case['params']
+	return QueryResults(items=items, params=None if p is None else QueryParams(classify_strict=p[0], chunksize=p[1], report_closest=p[2]),
+	                    genomeset=g.db.genomeset, signaturesmeta=SignaturesMeta(**g.sigmeta), extra=case.get('extra', {}))
+
+
+def k_query(ctx, cases):
+	"""real API query on a generated database"""
 	for case in cases:
 		g = get_db(case['db_seed'], case.get('lone_cr'))
-		ses = g.db.session
-		from gambit.db import Taxon, AnnotatedGenome, Genome
-		tkeys, gkeys = list(g.taxa), list(g.genomes)
+		check_results(ctx, 'query', case, g, run_query(g, case))
 
-		def T(i):
-			return None if i is None else ses.query(Taxon).filter_by(key=tkeys[i % len(tkeys)]).one()
 
-		def M_(m):
-			if m is None:
-				return None
-			ge = ses.query(AnnotatedGenome).join(Genome).filter(Genome.key == gkeys[m[0] % len(gkeys)]).one()
-			d = np.uint32(m[1]).view(np.float32) if m[3] else float(np.uint32(m[1]).view(np.float32))
-			return GenomeMatch(genome=ge, distance=d, matched_taxon=T(m[2]))
-		items = []
-		for it, inp in zip(case['items'], _inputs(case)):
-			cr = ClassifierResult(success=it['success'], predicted_taxon=T(it['pred']), primary_match=M_(it['primary']),
-			                      closest_match=M_(it['closest']), next_taxon=T(it['next']), warnings=list(it['warnings']), error=it['error'])
-			items.append(QueryResultItem(input=inp, classifier_result=cr, report_taxon=T(it['report']),
-			                             closest_genomes=[M_(m) for m in it['closest_genomes']]))
-		p = case['params']
-		res = QueryResults(items=items, params=None if p is None else QueryParams(classify_strict=p[0], chunksize=p[1], report_closest=p[2]),
-		                   genomeset=g.db.genomeset, signaturesmeta=SignaturesMeta(**g.sigmeta), extra=case.get('extra', {}))
-		check_results(ctx, 'built', case, g, res)
+def k_built(ctx, cases):
+	"""hand-built results object (as tests/test_results.py does), arbitrary combinations"""
+	for case in cases:
+		g = get_db(case['db_seed'], case.get('lone_cr'))
+		check_results(ctx, 'built', case, g, build_results(g, case))
+
+
+def k_multiset(ctx, cases):
+	"""a database with several genome sets over shared Genome rows; several result sets (real queries and
+	hand-built objects) against them; every result set goes through the per-result checks (three exports, model,
+	fresh reader); then the archives are read back by ResultsArchiveReader instances according to `schedule` =
+	[[reader number, result set number], ...] (one reader instance per reader number, kept for the whole case)
+	and EVERY loaded object must reconstruct its original."""
+	from gambit.results import ResultsArchiveWriter, ResultsArchiveReader
+	for case in cases:
+		mdb = get_mdb(case['db_seed'], case.get('lone_cr'))
+		R = []
+		for spec in case['results']:
+			g = mdb.sets[spec['set'] % len(mdb.sets)]
+			R.append((g, run_query(g, spec) if spec['how'] == 'query' else build_results(g, spec)))
+		sched = [(r, i % len(R)) for r, i in case['schedule']] if R else []
+		sets_of = {}
+		for r, i in sched:
+			sets_of.setdefault(r, []).append(R[i][0].gset['id'])
+		# non-trivial: some reader instance is used for more than one archive
+		ctx.case(case, nontrivial=any(len(v) > 1 for v in sets_of.values()))
+		if any(len(set(v)) > 1 for v in sets_of.values()):
+			ctx.count('multiset:reader-crosses-genome-sets')
+		nv = len(ctx.violations)
+
+		def tag(i):
+			gs = R[i][0].gset
+			return f'result set {i} ({case["results"][i]["how"]}, genome set id {gs["id"]} key {gs["key"]!r} version {gs["version"]!r})'
+		texts = []
+		for i, (g, res) in enumerate(R):
+			check_results(ctx, 'multiset', case, g, res, register=False, where=tag(i) + ': ')
+			try:
+				texts.append(_export(ResultsArchiveWriter(), res))
+			except Exception:
+				texts.append(None)       # reported by check_results
+		if len(ctx.violations) > nv:
+			continue
+		readers, hist = {}, {}
+		for step, (r, i) in enumerate(sched):
+			if texts[i] is None:
+				continue
+			g, res = R[i]
+			if r not in readers:
+				readers[r] = ResultsArchiveReader(mdb.session)
+				hist[r] = []
+			try:
+				r2 = readers[r].read(io.StringIO(texts[i]))
+			except Exception as e:
+				r2 = None
+				bad = f'archive cannot be read back: {type(e).__name__}: {e}'
+			if r2 is not None:
+				bad = compare_loaded(g, abs_results(res), res, r2, abs_results(r2), True)
+			if bad:
+				ctx.violation('multiset', case, f'schedule step {step}: reader instance {r}, which had read the archives of result sets {hist[r]} before, '
+				              f'reads the archive of {tag(i)}: {bad}', impl=texts[i][:2000])
+				break
+			hist[r].append(i)
 
 
 def k_lonecr(ctx, cases):
@@ -721,7 +1029,7 @@ def k_jsontext(ctx, cases):
 			ctx.broke('correspondence cpython-json (string scanner)', f'{l!r}: json {py} model {ans[i]}')
 
 
-KINDS = {'query': k_query, 'built': k_built, 'cli': k_cli, 'lonecr': k_lonecr, 'chunknone': k_chunknone, 'rows': k_rows, 'csvtext': k_csvtext,
+KINDS = {'query': k_query, 'built': k_built, 'multiset': k_multiset, 'cli': k_cli, 'lonecr': k_lonecr, 'chunknone': k_chunknone, 'rows': k_rows, 'csvtext': k_csvtext,
          'jsonstr': k_jsonstr, 'jsontext': k_jsontext}
 
 
@@ -732,6 +1040,7 @@ def setup(ctx):
 	impl.check_import()
 	STATE['scratch'] = impl.scratch_dir('gambit-verif-c11-')
 	STATE['dbs'] = {}
+	STATE['mdbs'] = {}
 	# does the implementation under test quote a lone carriage return?
 	RowsExporter = _rows_exporter()
 	t = _export(RowsExporter(['h']), _RowsResults([['a\rb', 'c']]))
@@ -756,6 +1065,11 @@ def teardown(ctx):
 			g.db.session.close()
 		except Exception:
 			pass
+	for m in STATE.get('mdbs', {}).values():
+		try:
+			m.session.close()
+		except Exception:
+			pass
 
 
 def _rand_label(rng, pool):
@@ -775,6 +1089,82 @@ def _rand_files(rng, labels, pool):
 		else:
 			out.append(['/data/' + rng.choice(pool).replace('\x00', '') + '.fa', rng.choice(['fasta', 'genbank']), rng.choice([None, 'gzip'])])
 	return out
+
+
+def _gen_query(rng, pool, chunks):
+	"""description of one real query (see run_query)"""
+	k = rng.randint(1, 5)
+	queries = []
+	for _ in range(k):
+		r = rng.random()
+		if r < 0.25:
+			queries.append([None, 0.0, rng.randrange(10 ** 6)])          # unrelated: no prediction
+		else:
+			queries.append([rng.randrange(100), rng.choice([0.0, 0.005, 0.02, 0.05, 0.12]), rng.randrange(10 ** 6)])
+	labels = [_rand_label(rng, pool) for _ in range(k)]
+	return dict(strict=rng.random() < 0.5, report_closest=rng.choice([1, 3, 10]),
+	            chunksize=rng.choice(chunks), queries=queries, labels=labels,
+	            files=_rand_files(rng, labels, pool), extra=rng.choice([{}, {'foo': 1, 'bar': [_rand_label(rng, pool), None]}]))
+
+
+def _gen_built(rng, pool, chunks):
+	"""description of one hand-built results object (see build_results)"""
+	import numpy as np
+	k = rng.randint(1, 4)
+	items = []
+
+	def rm():
+		d = rng.choice([0.0, 1.0, rng.random(), rng.choice([0.1, 0.3, 0.24242425, 1e-8, 0.99999994])])
+		return [rng.randrange(100), int(np.float32(d).view(np.uint32)), rng.choice([None, rng.randrange(100)]), rng.random() < 0.8]
+	for _ in range(k):
+		pred = rng.choice([None, rng.randrange(100)])
+		items.append(dict(success=rng.random() < 0.7, pred=pred, primary=rng.choice([None, rm()]), closest=rm(),
+		                  next=rng.choice([None, rng.randrange(100)]),
+		                  warnings=[_rand_label(rng, pool) for _ in range(rng.choice([0, 0, 1, 3]))],
+		                  error=rng.choice([None, None, _rand_label(rng, pool)]),
+		                  report=rng.choice([None, pred, rng.randrange(100)]),
+		                  closest_genomes=[rm() for _ in range(rng.choice([0, 1, 4]))]))
+	labels = [_rand_label(rng, pool) for _ in range(k)]
+	return dict(items=items, labels=labels, files=_rand_files(rng, labels, pool),
+	            params=rng.choice([None, [True, 1234, 10], [False, chunks[2], 3]]),
+	            extra=rng.choice([{}, {'k': [1, 2.5, 'xé', None, {'y': False}]}]))
+
+
+def _gen_schedule(rng, sets):
+	"""`sets`: genome set number of each result set -> list of [reader number, result set number].  Shapes: one
+	reader over everything (in order, reversed, shuffled, with repeats), one reader alternating between the
+	genome sets, one reader per genome set, a fresh reader per archive, two readers interleaved."""
+	n = len(sets)
+	idx = list(range(n))
+	shape = rng.choice(['one-fwd', 'one-rev', 'one-shuffled', 'one-repeat', 'alternate', 'per-set', 'fresh', 'two-readers'])
+	if shape == 'one-fwd':
+		return [[0, i] for i in idx]
+	if shape == 'one-rev':
+		return [[0, i] for i in reversed(idx)]
+	if shape == 'one-shuffled':
+		rng.shuffle(idx)
+		return [[0, i] for i in idx]
+	if shape == 'one-repeat':
+		return [[0, rng.choice(idx)] for _ in range(rng.randint(n, 2 * n + 1))]
+	if shape == 'alternate':
+		by = {}
+		for i in idx:
+			by.setdefault(sets[i], []).append(i)
+		groups = list(by.values())
+		rng.shuffle(groups)
+		out = []
+		while any(groups):
+			for g in groups:
+				if g:
+					out.append([0, g.pop(0)])
+		return out + [[0, out[0][1]]]
+	if shape == 'per-set':
+		rng.shuffle(idx)
+		return [[sets[i], i] for i in idx]
+	if shape == 'fresh':
+		return [[k, i] for k, i in enumerate(idx)]
+	rng.shuffle(idx)
+	return [[rng.randrange(2), i] for i in idx + idx[:rng.randint(0, n)]]
 
 
 def generate(ctx):
@@ -839,42 +1229,13 @@ def generate(ctx):
 	nq = ctx.pick(14, 40)
 	for dbi in range(ndb):
 		for j in range(nq):
-			k = rng.randint(1, 5)
-			queries = []
-			for _ in range(k):
-				r = rng.random()
-				if r < 0.25:
-					queries.append([None, 0.0, rng.randrange(10 ** 6)])          # unrelated: no prediction
-				else:
-					queries.append([rng.randrange(100), rng.choice([0.0, 0.005, 0.02, 0.05, 0.12]), rng.randrange(10 ** 6)])
-			labels = [_rand_label(rng, pool) for _ in range(k)]
-			yield 'query', dict(db_seed=dbi, lone_cr=lone, strict=rng.random() < 0.5, report_closest=rng.choice([1, 3, 10]),
-			                    chunksize=rng.choice(chunks), queries=queries, labels=labels,
-			                    files=_rand_files(rng, labels, pool), extra=rng.choice([{}, {'foo': 1, 'bar': [_rand_label(rng, pool), None]}]))
+			yield 'query', dict(db_seed=dbi, lone_cr=lone, **_gen_query(rng, pool, chunks))
 		ctx.count('stream:query', nq)
 
 	# -- hand-built result objects: every combination the classifier cannot be steered into
 	for dbi in range(ndb):
 		for j in range(ctx.pick(12, 40)):
-			k = rng.randint(1, 4)
-			items = []
-
-			def rm():
-				d = rng.choice([0.0, 1.0, rng.random(), rng.choice([0.1, 0.3, 0.24242425, 1e-8, 0.99999994])])
-				import numpy as np
-				return [rng.randrange(100), int(np.float32(d).view(np.uint32)), rng.choice([None, rng.randrange(100)]), rng.random() < 0.8]
-			for _ in range(k):
-				pred = rng.choice([None, rng.randrange(100)])
-				items.append(dict(success=rng.random() < 0.7, pred=pred, primary=rng.choice([None, rm()]), closest=rm(),
-				                  next=rng.choice([None, rng.randrange(100)]),
-				                  warnings=[_rand_label(rng, pool) for _ in range(rng.choice([0, 0, 1, 3]))],
-				                  error=rng.choice([None, None, _rand_label(rng, pool)]),
-				                  report=rng.choice([None, pred, rng.randrange(100)]),
-				                  closest_genomes=[rm() for _ in range(rng.choice([0, 1, 4]))]))
-			labels = [_rand_label(rng, pool) for _ in range(k)]
-			yield 'built', dict(db_seed=dbi, lone_cr=lone, items=items, labels=labels, files=_rand_files(rng, labels, pool),
-			                    params=rng.choice([None, [True, 1234, 10], [False, chunks[2], 3]]),
-			                    extra=rng.choice([{}, {'k': [1, 2.5, 'xé', None, {'y': False}]}]))
+			yield 'built', dict(db_seed=dbi, lone_cr=lone, **_gen_built(rng, pool, chunks))
 		ctx.count('stream:built', ctx.pick(12, 40))
 
 	# -- CLI
@@ -890,3 +1251,30 @@ def generate(ctx):
 			yield 'cli', dict(db_seed=dbi, lone_cr=lone, strict=strict, labels=labels,
 			                  queries=[[rng.choice([None, rng.randrange(100)]), rng.choice([0.0, 0.01, 0.05]), rng.randrange(10 ** 6)] for _ in range(k)])
 			ctx.count('stream:cli')
+
+	# -- several genome sets in one database over shared genomes; archives read back by reused reader instances
+	for dbi in range(ctx.pick(4, 14)):
+		for j in range(ctx.pick(3, 12)):
+			nsets = len(get_mdb(dbi, lone).sets)       # 2 or 3 (the kind takes set numbers modulo this)
+			shape = rng.choice(['twins', 'twins', 'mixed', 'same-set'])
+			results = []
+			if shape == 'twins':        # the same queries against every genome set (versions) of the database
+				for _ in range(rng.randint(1, 2)):
+					q = _gen_query(rng, pool, chunks)
+					order = rng.sample(range(nsets), nsets)
+					results += [dict(q, set=si, how='query') for si in order]
+			elif shape == 'mixed':      # independent real queries and hand-built objects against random sets
+				for _ in range(rng.randint(2, 5)):
+					if rng.random() < 0.6:
+						results.append(dict(_gen_query(rng, pool, chunks), set=rng.randrange(nsets), how='query'))
+					else:
+						results.append(dict(_gen_built(rng, pool, chunks), set=rng.randrange(nsets), how='built'))
+			else:                       # several result sets against ONE of the genome sets (the others only sit in the database)
+				si = rng.randrange(nsets)
+				for _ in range(rng.randint(2, 4)):
+					if rng.random() < 0.7:
+						results.append(dict(_gen_query(rng, pool, chunks), set=si, how='query'))
+					else:
+						results.append(dict(_gen_built(rng, pool, chunks), set=si, how='built'))
+			yield 'multiset', dict(db_seed=dbi, lone_cr=lone, results=results, schedule=_gen_schedule(rng, [r['set'] for r in results]))
+			ctx.count('stream:multiset')
